@@ -1,7 +1,7 @@
 //! C16 engine binary: bulk construction vs one-by-one insertion.
 use engines::bulk::Bulk;
 use engines::common::Ctx;
-use engines::fam::{Copyf, Large, Track};
+use engines::fam::{Copyf, Large, OddF, TinyF, Track, WordF};
 
 fn main() {
     let mut cx = Ctx::from_args("eng_bulk");
@@ -25,6 +25,11 @@ fn main() {
             b.space::<Copyf, 2>(4, maxlen.min(5));
             b.space::<Copyf, 3>(4, maxlen.min(5));
             b.space::<Large, 2>(3, 4);
+            // drop-less keys whose == is not bit equality, odd sizes
+            b.space::<TinyF, 2>(3, 4);
+            b.space::<TinyF, 3>(4, maxlen.min(5));
+            b.space::<WordF, 3>(3, 4);
+            b.space::<OddF, 2>(3, 4);
             b.space_by_ref::<0>(4, 2);
             b.space_by_ref::<2>(4, maxlen.min(5));
             b.space_by_ref::<3>(4, maxlen.min(5));
